@@ -515,6 +515,16 @@ Section WalkFacts.
       In (AWrite (rel ++ [index_rst]) (index_of prefix rel ch)) run ->
       In f (toctree_files rel ch) -> reachable prefix run (rel ++ [rst_name f]).
 
+  (* a page write is described by the file it documents *)
+  Definition is_page_of (base : str) (rel : list str) (ch : list node) (p : list str) (text : str)
+    : Prop :=
+    exists fn bytes title modname,
+      In (F fn bytes) ch /\ excl (rel ++ [fn]) false = false /\ is_cmake_name fn = true
+      /\ p = rel ++ [rst_name fn]
+      /\ (title, modname) = header_and_module (Some (run_prefix base)) (ws_sep st) (ws_ext_titles st)
+                                              (ws_ext_modules st) (rel_string (rel ++ [fn]))
+      /\ docfn title modname bytes = OOk text.
+
   (* ---- end of spec ---- *)
 
   Notation keepd := (keep_dir st excl).
@@ -1089,16 +1099,6 @@ Section WalkFacts.
     apply cut_at_abort_in in Ha. apply in_raw_iff in Ha. exact Ha.
   Qed.
 
-  (* a page write is described by the file it documents *)
-  Definition is_page_of (base : str) (rel : list str) (ch : list node) (p : list str) (text : str)
-    : Prop :=
-    exists fn bytes title modname,
-      In (F fn bytes) ch /\ excl (rel ++ [fn]) false = false /\ is_cmake_name fn = true
-      /\ p = rel ++ [rst_name fn]
-      /\ (title, modname) = header_and_module (Some (run_prefix base)) (ws_sep st) (ws_ext_titles st)
-                                              (ws_ext_modules st) (rel_string (rel ++ [fn]))
-      /\ docfn title modname bytes = OOk text.
-
   (* every write of a directory run is the index of a visited directory or the page of a
      non-excluded file of a visited directory *)
   Theorem write_cases : forall base top p text,
@@ -1595,4 +1595,68 @@ Section WalkFacts.
     - subst c. apply name_ok_rst_name. apply Hn. apply in_app_iff. right. exact Hfn.
     - subst c. reflexivity.
   Qed.
+  (* W12 for a single input file: the only page is <stem>.rst directly in the output directory *)
+  Theorem file_run_paths : forall base content,
+    (forall p, In p (write_paths (document st hdrs docfn excl base (KFile content))) ->
+               p = [rst_name base])
+    /\ (forall p, In p (mkdirs (document st hdrs docfn excl base (KFile content))) -> p = []).
+  Proof.
+    intros base content. unfold document. destruct (excl [] false); [split; intros p []|].
+    split; intros p Hin.
+    - apply in_write_paths in Hin. destruct Hin as [t Hin]. apply cut_at_abort_in in Hin.
+      apply in_app_iff in Hin. destruct Hin as [Hin|Hin].
+      + destruct (ws_out st); [destruct Hin as [Hin|[]]; discriminate Hin|destruct Hin].
+      + apply in_doc_actions_write in Hin. destruct Hin as [_ [Hp _]]. exact Hp.
+    - apply in_mkdirs in Hin. apply cut_at_abort_in in Hin.
+      apply in_app_iff in Hin. destruct Hin as [Hin|Hin].
+      + destruct (ws_out st); [|destruct Hin]. destruct Hin as [Hin|[]]. inversion Hin. reflexivity.
+      + apply in_doc_actions_mkdirs in Hin. destruct Hin as [_ Hp]. exact Hp.
+  Qed.
 End WalkFacts.
+
+(* ==== MAIN THEOREMS ====
+   sorting      str_leb_refl str_leb_total str_leb_antisym str_leb_trans
+                sort_by_perm sort_by_sorted sort_by_perm_eq
+   cut          cut_at_abort_id cut_at_abort_spec cut_at_abort_stop_last
+   C13  W1      writes_exact writes_exact_in writes_exact_nonrecursive expected_sub_paths
+        W2      write_cases page_content
+   C14  W3      index_content index_of_entries
+        W4      keep_dir_processed toctree_closed_dirs toctree_closed_files
+        W5      toctree_complete all_written_reachable
+   C15  W7      excluded_input_no_output
+        W8      written_page_from_nonexcluded   (tree form: WalkFacts2.excluded_file_not_written)
+        W9      excluded_dir_not_descended
+   C18  W11     no_output_dir_no_writes
+        W12     write_components_from_tree writes_stay_below file_run_paths
+        W14     files_sorted_within_dir
+   C06  W15     failed_file_aborts failed_file_aborts_run nothing_after_abort
+   W1b W6 W10 W13, all concrete examples and the refuted statements are in WalkFacts2.v *)
+Print Assumptions str_leb_total.
+Print Assumptions str_leb_antisym.
+Print Assumptions str_leb_trans.
+Print Assumptions sort_by_perm.
+Print Assumptions sort_by_sorted.
+Print Assumptions sort_by_perm_eq.
+Print Assumptions cut_at_abort_id.
+Print Assumptions cut_at_abort_spec.
+Print Assumptions writes_exact.
+Print Assumptions writes_exact_in.
+Print Assumptions write_cases.
+Print Assumptions page_content.
+Print Assumptions index_content.
+Print Assumptions keep_dir_processed.
+Print Assumptions toctree_closed_dirs.
+Print Assumptions toctree_closed_files.
+Print Assumptions toctree_complete.
+Print Assumptions all_written_reachable.
+Print Assumptions excluded_input_no_output.
+Print Assumptions written_page_from_nonexcluded.
+Print Assumptions excluded_dir_not_descended.
+Print Assumptions no_output_dir_no_writes.
+Print Assumptions write_components_from_tree.
+Print Assumptions writes_stay_below.
+Print Assumptions file_run_paths.
+Print Assumptions files_sorted_within_dir.
+Print Assumptions failed_file_aborts.
+Print Assumptions failed_file_aborts_run.
+Print Assumptions nothing_after_abort.
